@@ -417,7 +417,7 @@ func mutations(seed string) [][]byte {
 }
 
 func run(c *enum.Ctx) {
-	c.Rule("per format (FASTA, FASTQ with a Sanger, a Solexa and an Illumina 1.3 template, BED3/4/5/6/12, GFF): (a) every sequence of <=3 (thorough 4) line tokens from an alphabet of 10-30 line shapes (valid lines and every invalid shape the statement lists; metadata lines with an emptied field, BED12 lines without blocks), each with and without a final newline and with CRLF; (b) every byte string of length <=4 (thorough 5) over 15 structural bytes; (c) every single mutation (thorough: every pair) of a valid seed file: delete/duplicate a line, delete/duplicate/replace a column by {'',0,-1,2^63,x,1e3,' '}, truncate at every byte offset; oracle: no panic, every call returns a record or an error, io.EOF or an error within lines+1 calls, and inputs with an invalid line of a listed kind end in a non-EOF error; (d) the size ladder (one field of a well-formed file - letters, name, block lists with and without trailing comma, attributes, comment, inline sequence - with 2^k-1, 2^k, 2^k+1 elements up to 1025, thorough 8193); FASTQ files of <=3 (4) four-line groups over 9 letters/qualities shapes (two with white space inside the quality line: as many raw bytes as letters but fewer scores, and the reverse) x 2 '+'-line styles, read on past errors: every record that comes back is its own group and no group with differing lengths ever comes back; distinct = distinct inputs; non-trivial = inputs with at least one complete line")
+	c.Rule("per format (FASTA, FASTQ with a Sanger, a Solexa and an Illumina 1.3 template, BED3/4/5/6/12, GFF): (a) every sequence of <=3 (thorough 4) line tokens from an alphabet of 10-30 line shapes (valid lines and every invalid shape the statement lists; metadata lines with an emptied field, BED12 lines without blocks), each with and without a final newline and with CRLF; (b) every byte string of length <=4 (thorough 5) over 15 structural bytes; (c) every single mutation (thorough: every pair) of a valid seed file: delete/duplicate a line, delete/duplicate/replace a column by {'',0,-1,2^63,x,1e3,' '}, truncate at every byte offset; oracle: no panic, every call returns a record or an error, io.EOF or an error within lines+1 calls, and inputs with an invalid line of a listed kind end in a non-EOF error; (d) the size ladder (one field of a well-formed file - letters, name, block lists with and without trailing comma, attributes, comment, inline sequence - with 2^k-1, 2^k, 2^k+1 (also 3*2^k, 10^j-1, 10^j, 10^j+1, 5*10^j) elements up to 1025, thorough 8193); FASTQ files of <=3 (4) four-line groups over 9 letters/qualities shapes (two with white space inside the quality line: as many raw bytes as letters but fewer scores, and the reverse) x 2 '+'-line styles, read on past errors: every record that comes back is its own group and no group with differing lengths ever comes back; distinct = distinct inputs; non-trivial = inputs with at least one complete line")
 	c.Assume("a hang is detected by a progress watchdog and confirmed by re-running the single input in a child process before it is reported")
 	depth, blen := 3, 4
 	if !c.Quick {
@@ -489,7 +489,7 @@ func run(c *enum.Ctx) {
 				}
 			}
 			rec()
-		case 5: // the size ladder: one field of a well-formed file has 2^k-1, 2^k, 2^k+1 elements / letters
+		case 5: // the size ladder: one field of a well-formed file has 2^k-1, 2^k, 2^k+1 (also 3*2^k, 10^j-1, 10^j, 10^j+1, 5*10^j) elements / letters
 			top := 1025
 			if !c.Quick {
 				top = 8193
